@@ -680,6 +680,53 @@ func init() {
 		ex.setBig(st, a[0].(*Ptr), t)
 		return a[0]
 	}
+	bigBin := func(op Op) intrinsicFn {
+		return func(ex *Exec, st *State, fr *Frame, c *ssa.Call, a []Value) Value {
+			x, y := ex.bigOf(st, a[1].(*Ptr)), ex.bigOf(st, a[2].(*Ptr))
+			if op == OpURem {
+				ex.oblige(st, mkNot(mkEq(y, mkBV(bigW, 0))), "panic:divzero", "big.Int: division by zero")
+				if xv, ok := x.ConstBig(); ok {
+					if yv, ok := y.ConstBig(); ok && yv.Sign() > 0 {
+						ex.setBig(st, a[0].(*Ptr), mkBigBV(bigW, new(big.Int).Mod(xv, yv)))
+						return a[0]
+					}
+				}
+			}
+			// non-negative values only (the library never builds negative ones); Sub is assumed not to go below zero
+			if op == OpSub {
+				ex.oblige(st, mkCmp(OpUle, y, x), "engine:big-negative", "big.Int subtraction below zero is outside the modelled domain")
+			}
+			ex.setBig(st, a[0].(*Ptr), mkBin(op, x, y))
+			return a[0]
+		}
+	}
+	intrinsics["(*math/big.Int).Mod"] = bigBin(OpURem)
+	intrinsics["(*math/big.Int).Rem"] = bigBin(OpURem)
+	intrinsics["(*math/big.Int).Add"] = bigBin(OpAdd)
+	intrinsics["(*math/big.Int).Sub"] = bigBin(OpSub)
+	intrinsics["(*math/big.Int).Set"] = func(ex *Exec, st *State, fr *Frame, c *ssa.Call, a []Value) Value {
+		ex.setBig(st, a[0].(*Ptr), ex.bigOf(st, a[1].(*Ptr)))
+		return a[0]
+	}
+	intrinsics["math/big.NewInt"] = func(ex *Exec, st *State, fr *Frame, c *ssa.Call, a []Value) Value {
+		v := a[0].(*Term)
+		ex.oblige(st, mkCmp(OpSle, mkBV(64, 0), v), "engine:big-negative", "negative big.Int is outside the modelled domain")
+		return ex.newBig(st, mkZext(bigW, v))
+	}
+	intrinsics["(*math/big.Int).Sign"] = func(ex *Exec, st *State, fr *Frame, c *ssa.Call, a []Value) Value {
+		x := ex.bigOf(st, a[0].(*Ptr))
+		return mkIte(mkEq(x, mkBV(bigW, 0)), c64(0), c64(1))
+	}
+	intrinsics["(*math/big.Int).Lsh"] = func(ex *Exec, st *State, fr *Frame, c *ssa.Call, a []Value) Value {
+		n := ex.intArg(st, a[2], "big.Int.Lsh amount")
+		ex.setBig(st, a[0].(*Ptr), mkBin(OpShl, ex.bigOf(st, a[1].(*Ptr)), mkBV(bigW, uint64(n))))
+		return a[0]
+	}
+	intrinsics["(*math/big.Int).Rsh"] = func(ex *Exec, st *State, fr *Frame, c *ssa.Call, a []Value) Value {
+		n := ex.intArg(st, a[2], "big.Int.Rsh amount")
+		ex.setBig(st, a[0].(*Ptr), mkBin(OpLshr, ex.bigOf(st, a[1].(*Ptr)), mkBV(bigW, uint64(n))))
+		return a[0]
+	}
 	intrinsics["(*math/big.Int).Cmp"] = func(ex *Exec, st *State, fr *Frame, c *ssa.Call, a []Value) Value {
 		x, y := ex.bigOf(st, a[0].(*Ptr)), ex.bigOf(st, a[1].(*Ptr))
 		return mkIte(mkCmp(OpUlt, x, y), mkBV(64, ^uint64(0)), mkIte(mkEq(x, y), c64(0), c64(1)))
